@@ -91,7 +91,7 @@ PROPS["C05"] = dict(
                 "is a fixed point of the conditional controls). _run_postsolve_controls / _run_feasibility_controls are under contract (exactly the due controls "
                 "run once each in ascending priority between setting and removing the change tracker's reference point).",
     trusted_base=["np.round(x, 10) is the identity (float == R)", RT_TRUST],
-    not_decided=["TankLevelCondition with a volume curve (np.interp) - not under proof", "the step converged and the trial limit was not hit (premise of the property)",
+    not_decided=["TankLevelCondition with a volume curve of more than three points (three-point curves: contracts/c06_tanks.py)", "the step converged and the trial limit was not hit (premise of the property)",
                  ],
     assumptions=[],
 )
@@ -102,8 +102,9 @@ PROPS["C06"] = dict(
                 "WNTRSimulator._get_all_tank_controls (which links are closed at min/max head before and after each solve, re-open thresholds) are "
                 "executed symbolically from the real source; lemma: overshoot below two seconds of the tank's flow.",
     trusted_base=[RT_TRUST],
-    not_decided=["tanks with a volume curve: update_tank_heads / get_volume interpolate a table (np.interp + end-segment extension); not under proof, bounded stand-in "
-                 "C06.volume_curve_tanks only (pre-survey finding 18 was repaired by fix 3e76046b and its scenario is part of that stand-in)",
+    not_decided=["tanks with a volume curve of more than three points: bounded stand-in C06.volume_curve_tanks only (three-point curves with symbolic coordinates are "
+                 "under contract: volume identity, get_volume, partial-step bound of the level controls; np.interp modelled as documented). Pre-survey finding 18 was "
+                 "repaired by fix 3e76046b; its scenario is part of the stand-in",
                  "first step: no backtracking at t=0"],
     assumptions=[],
 )
